@@ -1,7 +1,7 @@
 (* C30 — a grain is active on at most one node at a time.
    Statements only; model in C30/Model.v (over C30/Registry.v), proofs in C30/Proofs.v and C30/Inv.v. *)
 From Coq Require Import List Arith Bool.
-From GV Require Import C30.Registry C30.Model C30.Proofs.
+From GV Require Import C30.Registry C30.Model C30.Proofs C30.Partial.
 Import ListNotations.
 
 (* The literal property is FALSE for the protocol of actor/grain_engine.go: there is an execution of three
@@ -21,6 +21,29 @@ Theorem C30_refuted_no_failure :
   exists ls s, run state0 ls = Some s /\ count_fail ls = 0 /\ ~ at_most_one_active s.
 Proof. exact refuted_at_most_one_no_failure. Qed.
 
+(* What does hold (any number of nodes, any interleaving of sends, deactivations and injected failures, any
+   length): every execution in which (a) no leader continues after a lost claim whose owner record has
+   vanished [claimless] and (b) no deactivation overlaps the same node's activation flight or another
+   deactivation [overlap] -- guard = negb claimless && negb overlap, checked at every step by run_g -- has at
+   most one live instance, on one node, and the registry names that node at every moment (not only at quiescence). *)
+Theorem C30_partial : forall ls s,
+  run_g state0 ls = Some s -> at_most_one_active s /\ registry_names_holder s.
+Proof. exact partial_safe. Qed.
+
+Theorem C30_partial_at_most_one : forall ls s n m p q,
+  run_g state0 ls = Some s -> is_live s n p -> is_live s m q -> n = m /\ p = q.
+Proof. intros ls s n m p q R. destruct (partial_safe ls s R) as (A & _). apply A. Qed.
+
+Theorem C30_partial_registry_names_holder : forall ls s n p,
+  run_g state0 ls = Some s -> is_live s n p -> r_get gk (sreg s) = Some n.
+Proof. intros ls s n p R. destruct (partial_safe ls s R) as (_ & B). apply B. Qed.
+
+(* the guard is met by non-trivial executions (activation, owner mismatch, deactivation, failed activation with
+   claim rollback, failed publication with failing rollback, re-activation elsewhere) *)
+Example C30_partial_nonvacuous :
+  exists s, run_g state0 guarded_example = Some s /\ is_live s 2 1 /\ r_get gk (sreg s) = Some 2.
+Proof. exact partial_nonvacuous. Qed.
+
 (* M-REGISTRY: of two NX puts on one key exactly one can win. *)
 Theorem C30_registry_nx_exclusive : forall (k v1 v2 : nat) (r r1 r2 : reg nat) b1 b2,
   r_put_if_absent k v1 r = (r1, b1) -> r_put_if_absent k v2 r1 = (r2, b2) -> b1 && b2 = false.
@@ -30,3 +53,7 @@ Print Assumptions C30_refuted.
 Print Assumptions C30_registry_refuted.
 Print Assumptions C30_refuted_no_failure.
 Print Assumptions C30_registry_nx_exclusive.
+Print Assumptions C30_partial.
+Print Assumptions C30_partial_at_most_one.
+Print Assumptions C30_partial_registry_names_holder.
+Print Assumptions C30_partial_nonvacuous.
